@@ -215,6 +215,19 @@ let cmd_model line =
        Printf.sprintf "[%d,%d,%d,\"%s\"]" (int_of_n r.r_file) (int_of_n r.r_lo) (int_of_n r.r_hi) (dkind_name k)) ds))
     (at_section s lens)
 
+(* spec: the declarative resolver and the model's (ghost) use log on the same workspace:
+   {"frag":bool,"well_scoped":bool,"spec":[[f,lo,hi,null|[f,lo,hi]],...],"model":[...same shape, in order...]} *)
+let show_ev (u, d) =
+  Printf.sprintf "[%d,%d,%d,%s]" (int_of_n u.r_file) (int_of_n u.r_lo) (int_of_n u.r_hi)
+    (match d with None -> "null" | Some r -> show_rng r)
+let cmd_spec line =
+  let (_, w) = parse_line line in
+  let s = index_ws w in
+  Printf.sprintf "{\"frag\":%s,\"well_scoped\":%s,\"spec\":[%s],\"model\":[%s]}"
+    (if frag_ws w then "true" else "false") (if well_scoped w then "true" else "false")
+    (String.concat "," (List.map show_ev (spec_uses w)))
+    (String.concat "," (List.map show_ev (List.rev (s_uses s))))
+
 let each_line (f : string -> string) =
   (try
      while true do
@@ -227,4 +240,5 @@ let each_line (f : string -> string) =
 let () =
   match Sys.argv with
   | [| _; "model" |] -> each_line cmd_model
-  | _ -> prerr_endline "usage: scope_run model"; exit 2
+  | [| _; "spec" |] -> each_line cmd_spec
+  | _ -> prerr_endline "usage: scope_run model|spec"; exit 2
